@@ -161,6 +161,9 @@ func runCheck(prop, tier, repo, verif, only string, updateBaseline bool) int {
 		return 1
 	}
 
+	if os.Getenv("GOVC_TRUSTED_DIR") == "" {
+		os.Setenv("GOVC_TRUSTED_DIR", filepath.Join(verif, "trusted"))
+	}
 	w, err := LoadWorld(repo, []string{"./..."})
 	if err != nil {
 		return fail("load: " + err.Error())
@@ -231,7 +234,7 @@ func runCheck(prop, tier, repo, verif, only string, updateBaseline bool) int {
 	var obls []*Obligation
 	assumptions := map[string]bool{}
 	trusted := map[string]bool{}
-	var fuc []string
+	fuc := []string{}
 	for _, r := range results {
 		fuc = append(fuc, fnDisplayName(r.fn))
 		for _, n := range r.notes {
@@ -441,7 +444,7 @@ func runCheck(prop, tier, repo, verif, only string, updateBaseline bool) int {
 		"floating point values are opaque",
 		"termination is proved only where a decreases clause is given")
 	sort.Strings(asm)
-	var tb []string
+	tb := []string{}
 	for t := range trusted {
 		tb = append(tb, t)
 	}
